@@ -91,7 +91,7 @@ def gen_history(rng, nsteps, allow_entries=("eval", "keep", "direct"), edit_kind
         elif r < 0.38:
             steps.append(("eval", "entry_switch"))
         else:
-            steps.append(("eval", rng.choice(["body", "body", "var", "var", "const_arg", "unrelated_fun", "unrelated_var", "reorder", "ext", "delete_call", "whitespace", "rt_arg", "multiline"])))
+            steps.append(("eval", rng.choice(["body", "body", "var", "var", "const_arg", "unrelated_fun", "unrelated_var", "reorder", "ext", "delete_call", "whitespace", "rt_arg", "multiline", "wrap_lit", "wrap_lit"])))
     return steps
 
 
